@@ -2,16 +2,151 @@
 from __future__ import annotations
 
 
+import z3
+
+from pyvc import ops
+from pyvc.contract import Case, Contract, LoopSpec, Shape
+from pyvc.types import BOOL, INT, REAL, STR, MapT, ObjT, Opt, Record, SeqT, SetT, dd_set
+from pyvc.values import fresh_name
+
+from .common import ID, TASK
+
+MO = "pynenc.orchestrator.mem_orchestrator"
+SID = SetT(ID)
+
+
 def contracts(T, reg, ctx):
-    return []
+    """MemOrchestrator argument index: AND-match of all key pairs, index untouched by lookups, exact indexing at routing time."""
+    PAIR = Record("ArgPair", [("key", STR), ("value", STR)])
+    PAIR.pycls = (MO, "ArgPair")
+    reg.records[f"{MO}:ArgPair"] = PAIR
+    idx_t = MapT(PAIR, SID, default=dd_set(ID), default_name="set")
+    KA = MapT(STR, STR)
+    if "MemOrchestratorIndex" not in reg.shapes:
+        reg.add_shape(Shape("MemOrchestratorIndex", fields={"args_index": idx_t, "app": ObjT("App")}, cls=(MO, "MemOrchestrator")))
+    LSET = SeqT(SID)
+    inter = z3.Function("inter_sets", LSET.sort(), SID.sort())     # intersection of a list of sets (fold)
+    U = z3.K(ID.sort(), z3.BoolVal(True))
+
+    def fold_axioms():
+        s = z3.Const("fs", LSET.sort())
+        x = z3.Const("fx", SID.sort())
+        return z3.And(inter(LSET.empty()) == U,
+                      z3.ForAll([s, x], inter(z3.Concat(s, z3.Unit(x))) == ops.set_inter(inter(s), x)),
+                      z3.ForAll([x, s], inter(z3.Concat(z3.Unit(x), s)) == ops.set_inter(x, inter(s))),
+                      z3.ForAll([x], inter(z3.Unit(x)) == x))
+
+    def in_index(idx, k, v, i):
+        cell = z3.Select(idx, PAIR.make(k, v))
+        return z3.And(idx_t.opt.is_some(cell), z3.Select(idx_t.opt.val(cell), i))
+
+    def match_all(c, keys_set):
+        """{i | for every key k in keys_set: i in args_index[(k, key_arguments[k])]}"""
+        i = z3.Const(fresh_name("mi"), ID.sort())
+        k = z3.Const(fresh_name("mk"), STR.sort())
+        ka = c.arg("key_arguments")
+        return z3.Lambda([i], z3.ForAll([k], z3.Implies(z3.Select(keys_set, k), in_index(c.f("args_index"), k, KA.opt.val(z3.Select(ka, k)), i))))
+    keys_of = lambda c: ops.set_keys(c.argv("key_arguments")).term
+    fbk = Contract(
+        key=f"{MO}:MemOrchestrator.filter_by_key_arguments", shape="MemOrchestratorIndex", params={"key_arguments": KA}, result=SID, frame=[],
+        requires=[("fold-definition(inter_sets)", lambda c: fold_axioms())],
+        loops={
+            0: LoopSpec(modifies=[], inv=[
+                ("candidate-sets-intersect-to-the-match-of-the-seen-keys", lambda c: inter(c.v("all_candidate_sets")) == match_all(c, c.x("seen"))),
+                ("one-set-per-seen-key", lambda c: z3.Implies(c.x("seen") != SetT(STR).empty(), z3.Length(c.v("all_candidate_sets")) > 0)),
+            ]),
+            1: LoopSpec(modifies=[], inv=[
+                ("result-is-the-intersection-so-far", lambda c: c.v("result") == ops.set_inter(c.v("all_candidate_sets")[0], inter(z3.SubSeq(c.x("seq"), 0, c.x("i"))))),
+            ]),
+        },
+        cases=[Case("and-match", ensures=[
+            ("C06/C07:empty-filter-matches-nothing", lambda c: z3.Implies(c.arg("key_arguments") == KA.empty(), c.result == SID.empty())),
+            ("C06/C07:exactly-the-ids-indexed-under-ALL-key-pairs", lambda c: z3.Implies(c.arg("key_arguments") != KA.empty(), c.result == match_all(c, keys_of(c)))),
+        ])], properties=["C06", "C07"])
+    fbk.local_types = {"all_candidate_sets": LSET}
+    idx_inv = Contract(
+        key=f"{MO}:MemOrchestrator.index_arguments_for_concurrency_control", shape="MemOrchestratorIndex",
+        params={"invocation": Record("InvocationArgsView", [("invocation_id", ID), ("call", Record("CallArgsView", [("serialized_arguments", KA)]))])},
+        frame=["args_index"],
+        loops={0: LoopSpec(inv=[("every-seen-pair-indexed-nothing-else-changes", lambda c: _indexed(c, idx_t, PAIR, KA, c.x("seen")))])},
+        cases=[Case("indexed", ensures=[
+            ("C06:every-argument-pair-of-the-invocation-is-indexed-and-nothing-else-changes",
+             lambda c: _indexed(c, idx_t, PAIR, KA, ops.set_keys(_args_of(c)).term))])],
+        properties=["C06"])
+    out = [idx_inv]   # filter_by_key_arguments folds a *list of sets*: outside the encoder's decidable reach -> bounded stand-in below
+    for c in out:
+        reg.contracts[c.key + "#leaf"] = c   # do not shadow the abstract glue contracts registered under the same method name
+    return out
+
+
+def _args_of(c):
+    from pyvc.values import Val
+    inv_ty = c.argv("invocation").ty
+    call_ty = inv_ty.field_ty("call")
+    return Val(call_ty.get(inv_ty.get(c.arg("invocation"), "call"), "serialized_arguments"), call_ty.field_ty("serialized_arguments"))
+
+
+def _indexed(c, idx_t, PAIR, KA, keys):
+    p = z3.Const(fresh_name("ip"), PAIR.sort())
+    i = z3.Const(fresh_name("ii"), ID.sort())
+    args = _args_of(c).term
+    me = c.argv("invocation").ty.get(c.arg("invocation"), "invocation_id")
+    old, new = c.old("args_index"), c.f("args_index")
+
+    def member(m, pp, ii):
+        cell = z3.Select(m, pp)
+        return z3.And(idx_t.opt.is_some(cell), z3.Select(idx_t.opt.val(cell), ii))
+    mine = z3.And(z3.Select(keys, PAIR.get(p, "key")), KA.opt.is_some(z3.Select(args, PAIR.get(p, "key"))),
+                  KA.opt.val(z3.Select(args, PAIR.get(p, "key"))) == PAIR.get(p, "value"))
+    return z3.ForAll([p, i], member(new, p, i) == z3.Or(member(old, p, i), z3.And(mine, i == me)))
 
 
 def lemmas(T, reg, ctx):
     return []
 
 
+def mem_index_small_scope(ctx):
+    """Bounded stand-in for MemOrchestrator.filter_by_key_arguments / get_existing_invocations (real class, runtime contract check):
+    exhaustive over all argument indexes of 3 invocations x 2 argument names x 2 values and all key filters."""
+    import itertools
+    from pyvc.prop import BoundedResult
+    from pynenc.invocation.status import InvocationStatus as S
+    from pynenc.orchestrator.mem_orchestrator import ArgPair, MemOrchestrator
+    from .realapp import real_app
+    res = BoundedResult("mem_index_small_scope", "all assignments of (a,b) in {x,y}^2 to 3 invocations (64 indexes) x all 9 key filters over {a,b} "
+                        "x 2 consecutive lookups; oracle: AND of all pairs; the index must be unchanged by lookups", exhaustive=True)
+    vals = ["x", "y"]
+    n = 0
+    with real_app("mem") as app:
+        orch = app.orchestrator
+        for assign in itertools.product(itertools.product(vals, repeat=2), repeat=3):
+            orch.args_index.clear()
+            args = {f"i{k}": {"a": av, "b": bv} for k, (av, bv) in enumerate(assign)}
+            for iid, kv in args.items():
+                for k, v in kv.items():
+                    orch.args_index[ArgPair(k, v)].add(iid)
+            snapshot = {str(p): set(s) for p, s in orch.args_index.items()}
+            filters = [{}] + [{"a": v} for v in vals] + [{"b": v} for v in vals] + [{"a": v, "b": w} for v in vals for w in vals]
+            for f1, f2 in itertools.product(filters, repeat=2):
+                n += 1
+                for f in (f1, f2):
+                    got = orch.filter_by_key_arguments(dict(f))
+                    want = {iid for iid, kv in args.items() if f and all(kv[k] == v for k, v in f.items())}
+                    now = {str(p): set(s) for p, s in orch.args_index.items() if s or str(p) in snapshot}
+                    if got != want or any(now.get(k, set()) != v for k, v in snapshot.items()):
+                        if len(res.failures) < 5:
+                            res.failures.append({"what": f"filter_by_key_arguments({f}) after {f1}: got {sorted(got)}, AND-match is {sorted(want)}; "
+                                                         f"index changed: {any(now.get(k, set()) != v for k, v in snapshot.items())}",
+                                                 "input": {"args": args, "filters": [f1, f2]}, "finding_key": "mem:and-match"})
+                        break
+    res.cases = n
+    res.distinct = n
+    res.samples = [{"args": {"i0": {"a": "x", "b": "y"}}, "filters": [{"a": "x"}, {"a": "x", "b": "y"}]}]
+    return res
+
+
 def bounded():
-    return []
+    return [mem_index_small_scope]
 
 
 def replay_poll_raises(ctx, ob):
